@@ -2,7 +2,7 @@
 import z3
 from . import smt
 from .smt import IS, VS, Val, I, B, ISq, VSq
-from .values import VInt, VBool, VSeq, VNone, VTuple, VList, VAny, VConst, VRef, Unsupported, fresh, is_bytes_fact
+from .values import VInt, VBool, VSeq, VNone, VTuple, VList, VAny, VConst, VRef, Unsupported, fresh, is_bytes_fact, is_chars_fact
 from .engine import lit_seq, _ids
 
 
@@ -14,4 +14,80 @@ def ext_call(eng, st, name, args, kwargs, node):
         st.heap[ident] = {"__kind__": "file", "content": VSeq(data.t, "bytes"), "pos": VInt(0), "fkind": "bytesio"}
         eng.fr.assumed_used.add("io.BytesIO (file model)")
         return [(st, VRef(ident, "file"))]
+    if name in ("re.match", "re.fullmatch"):
+        pat = d(args[0])
+        subj = d(args[1])
+        if not (isinstance(pat, VSeq) and pat.py is not None and isinstance(subj, VSeq)):
+            raise Unsupported("re with a non-literal pattern")
+        eng.fr.assumed_used.add(f"{name} compiled to a first-order formula for the literal pattern {pat.py!r}")
+        return [(st, VBool(regex_formula(pat.py, subj.t, name.split(".")[1])))]
+    if name in ("random.getrandbits",):
+        n = eng.as_int(st, args[0], node)
+        r = fresh("randbits", I)
+        if z3.is_int_value(n):
+            st.assume(0 <= r, r < 2 ** n.as_long())
+        else:
+            st.assume(0 <= r)
+        eng.fr.assumed_used.add("random.getrandbits(n) in [0, 2**n)")
+        return [(st, VInt(r))]
     raise Unsupported(f"external call {name}")
+
+
+def regex_formula(pattern, s, mode):
+    """Formula for re.match / re.fullmatch of a fixed-length pattern: optional ^, atoms (literal, escaped
+    literal, character class with ranges) each optionally followed by {n}, optional end anchor $ or \\Z.
+    Python semantics of `$`: end of string or just before a trailing newline."""
+    i = 0
+    if pattern.startswith("^"):
+        i = 1
+    atoms = []          # list of predicates on a code point
+    end = None
+    while i < len(pattern):
+        ch = pattern[i]
+        if ch == "$" and i == len(pattern) - 1:
+            end = "$"
+            i += 1
+            continue
+        if pattern[i:i + 2] == "\\Z" and i == len(pattern) - 2:
+            end = "Z"
+            i += 2
+            continue
+        if ch == "[":
+            j = pattern.index("]", i)
+            body = pattern[i + 1:j]
+            ranges = []
+            k = 0
+            while k < len(body):
+                if k + 2 < len(body) and body[k + 1] == "-":
+                    ranges.append((ord(body[k]), ord(body[k + 2])))
+                    k += 3
+                else:
+                    ranges.append((ord(body[k]), ord(body[k])))
+                    k += 1
+            pred = (lambda rs: (lambda c: z3.Or(*[z3.And(lo <= c, c <= hi) for lo, hi in rs])))(ranges)
+            i = j + 1
+        elif ch == "\\":
+            lit = ord(pattern[i + 1])
+            pred = (lambda v: (lambda c: c == v))(lit)
+            i += 2
+        elif ch in ".*+?()|{}":
+            raise Unsupported(f"regex construct {ch!r}")
+        else:
+            pred = (lambda v: (lambda c: c == v))(ord(ch))
+            i += 1
+        count = 1
+        if i < len(pattern) and pattern[i] == "{":
+            j = pattern.index("}", i)
+            count = int(pattern[i + 1:j])
+            i = j + 1
+        atoms += [pred] * count
+    N = len(atoms)
+    L = IS.len(s)
+    chars = [p(IS.at(s, z3.IntVal(k))) for k, p in enumerate(atoms)]
+    if mode == "fullmatch" or end == "Z":
+        length = L == N
+    elif end == "$":
+        length = z3.Or(L == N, z3.And(L == N + 1, IS.at(s, z3.IntVal(N)) == 10))
+    else:
+        length = L >= N
+    return z3.And(length, *chars)
